@@ -443,7 +443,7 @@ func c16Switch(e *Env) {
 				if ret, ok := ins.(*ssa.Return); ok {
 					v := ret.Results[0]
 					if isNilConst(v) {
-						if !dominatedByFieldTest(fn, ret, "active") {
+						if !dominatedByFieldTest(fn, ret, "active") && !successEdge(fn, perr, ret) && !successEdgeViaCell(fn, perr, ret) {
 							okRet = false
 						}
 					} else if !ts.has(v) || passesThroughCall(v, ts) {
